@@ -246,18 +246,32 @@ def run(ctx):
         for f in index.nontest_funcs():
             if f.mod.name != "cdd.sqlalchemy.emit":
                 continue
+            def mentions_p2c(expr, depth=2):
+                """does `expr` turn a parameter into Column calls: names param_to_sqlalchemy_column_calls itself, or a
+                function of this module that does (an extracted per-parameter helper)"""
+                for x in ast.walk(expr):
+                    if isinstance(x, (ast.Name, ast.Attribute)):
+                        r = index.resolve(f.mod, x, f)
+                        if r == p2c.qual:
+                            return True
+                        h = index.funcs.get(r) if r else None
+                        if h is not None and h.mod is f.mod and h is not f and depth > 0 and mentions_p2c(h.node, depth - 1):
+                            return True
+                return False
+
             for n in iter_own(f.node):
-                if not (isinstance(n, ast.Call) and norm(n.func) == "map" and len(n.args) == 2):
+                # one element per parameter: map(FN, IT) or a comprehension / generator over IT
+                if isinstance(n, ast.Call) and norm(n.func) == "map" and len(n.args) == 2:
+                    fn_arg, it = n.args
+                elif isinstance(n, (ast.ListComp, ast.GeneratorExp)) and len(n.generators) >= 1:
+                    fn_arg, it = n.elt, n.generators[0].iter
+                else:
                     continue
-                fn_arg = n.args[0]
-                mentions = any(
-                    isinstance(x, (ast.Name, ast.Attribute)) and index.resolve(f.mod, x, f) == p2c.qual
-                    for x in ast.walk(fn_arg)
-                )
-                if not mentions:
+                if f.outer is not None or not mentions_p2c(fn_arg):
                     continue
+                if isinstance(it, (ast.Name,)) or "column_calls" in norm(it):
+                    continue  # the inner iteration over the Column calls of ONE parameter
                 n_sites += 1
-                it = n.args[1]
                 ok = (
                     isinstance(it, ast.Call)
                     and isinstance(it.func, ast.Attribute)
@@ -356,13 +370,27 @@ def run(ctx):
             facts_at[id(s)] = facts
 
         GuardWalker(on_stmt=on_stmt).walk_function(ehp.node)
-        stores = [
-            n
-            for n in iter_own(ehp.node)
-            if isinstance(n, ast.Assign)
-            and isinstance(n.targets[0], ast.Subscript)
-            and "[PK]" in norm(n.value)
-        ]
+        def marks_pk(fn_node):
+            return [
+                n
+                for n in iter_own(fn_node)
+                if isinstance(n, ast.Assign) and isinstance(n.targets[0], ast.Subscript) and "[PK]" in norm(n.value)
+            ]
+
+        stores = marks_pk(ehp.node)
+        # a private helper that writes the marker: each of its call statements in ensure_has_primary_key is a store
+        from ..region import Region
+
+        reg = Region(index, graph, ehp)
+        for h in reg.funcs[1:]:
+            if marks_pk(h.node):
+                for caller, call in reg.callsites.get(h.qual, ()):
+                    if caller is ehp:
+                        st_ = call
+                        while st_ is not None and not isinstance(st_, ast.stmt):
+                            st_ = ehp.mod.parents.get(st_)
+                        if st_ is not None:
+                            stores.append(st_)
         ctx.need(len(stores) >= 3, "expected three primary-key stores in ensure_has_primary_key, found {}".format(len(stores)))
         absence = None
         for n in iter_own(ehp.node):
